@@ -266,6 +266,19 @@ namespace net
     }
     else if (n == "sweep")
       op_sweep(op);
+    else if (n == "guard")
+    {
+      if (!lra || !sat->root_level())
+        return;
+      ++epoch;
+      Guard gd;
+      gd.g = sat->new_var();
+      bknown.insert(gd.g); // known to the oracles (learnt clauses mention it), never offered to the other ops
+      guards.push_back(gd);
+      cnt.inc("guard");
+    }
+    else if (n == "cbound")
+      op_cbound(op);
     else
       cnt.inc("unknown_op");
   }
